@@ -9,6 +9,7 @@ package c05
 import (
 	"fmt"
 	"github.com/inbucket/inbucket/v3/pkg/extension/event"
+	"io"
 	"regexp"
 	"sort"
 	"strings"
@@ -267,9 +268,36 @@ func sessionCase(c *fw.Ctx, r *fw.Rand) {
 	m := genModel(r)
 	conf := load(c, r, m)
 	conf.MailboxNaming = config.LocalNaming
-	env, err := sut.NewEnv(conf, "mem")
-	if err != nil {
-		panic(err)
+	// The policy is what the configuration says for as long as the server runs.  In a quarter of
+	// the sessions the web side is up as well and read-only pages are fetched before and during the
+	// dialogue - the status page, an API listing, a mailbox page (added after seeded change C05-9:
+	// a read-only page that rewrites the configuration it displays).
+	var env *sut.Env
+	browse := func() {}
+	if r.Chance(1, 4) {
+		we, err := sut.NewWebEnv(conf, "mem")
+		if err != nil {
+			panic(err)
+		}
+		defer we.Close()
+		env = we.Env
+		hc := we.Server.Client()
+		browse = func() {
+			for _, p := range []string{"/serve/status", "/api/v1/mailbox/nobody", "/serve/mailbox/nobody", "/serve/status"} {
+				if resp, err := hc.Get(we.Base + p); err == nil {
+					_, _ = io.Copy(io.Discard, resp.Body)
+					_ = resp.Body.Close()
+					c.Count("web_pages_fetched_around_sessions", 1)
+				}
+			}
+		}
+		browse()
+	} else {
+		var err error
+		env, err = sut.NewEnv(conf, "mem")
+		if err != nil {
+			panic(err)
+		}
 	}
 	// In a quarter of the sessions an extension explicitly allows every recipient whose local
 	// part starts with "al": that overrides the domain lists, but the recipient limit (and the
